@@ -101,8 +101,10 @@ struct Oracle {
   size_t pos = 0;
   size_t max_depth = 64;
   bool overflow = false;
+  bool memo = false;                          // opt-in (MemoScope): a condition asked again on the same path keeps its answer
   bool ask(uint32_t cond) {
     bool d;
+    if (memo) for (auto const& t : trail) if (t.first == cond) return t.second;
     if (pos < decisions.size()) d = decisions[pos];
     else {
       if (decisions.size() >= max_depth) { overflow = true; d = false; }
@@ -119,6 +121,7 @@ inline Oracle& oracle() { static Oracle o; return o; }
 inline bool is_lit(uint32_t id) { return arena().nodes[id].op == LIT; }
 inline double lit_val(uint32_t id) { return arena().nodes[id].d; }
 
+struct MemoScope { bool old; MemoScope() : old(oracle().memo) { oracle().memo = true; } ~MemoScope() { oracle().memo = old; } };
 inline bool decide_cmp(Op op, uint32_t a, uint32_t b) {
   if (is_lit(a) && is_lit(b)) {           // constants are folded (e.g. `Bits >= 32 ? … : …`)
     double x = lit_val(a), y = lit_val(b);
